@@ -18,10 +18,12 @@ structure Closed (P : List Act → Prop) : Prop where
 def KeyOK (d : List (Str × Val)) (P : List Act → Prop) : Prop :=
   ∀ a b acts acts', P acts → P acts' → keyOf a acts = keyOf b acts' → ∀ m, refChain d m acts = refChain d m acts'
 
-/-- `getvar` is never applied to a volatile state (a volatile state is not cloned before a command: the variable's object
-handed out as data would be mutated by later steps of the same chain) -/
+/-- `getvar` and `cvapp` are never applied to a volatile state (a volatile state is not cloned before a command: the
+variable's object that `getvar` hands out as data would be mutated by later steps of the same chain; the context's variable
+that `cvapp` appends to is the variable of the very state the command returns) -/
 def Safe (d : List (Str × Val)) (P : List Act → Prop) : Prop :=
-  ∀ acts act, P acts → acts.getLast? = some act → String.ofList act.name = "getvar" →
+  ∀ acts act, P acts → acts.getLast? = some act →
+    (String.ofList act.name = "getvar" ∨ String.ofList act.name = "cvapp") →
     ∀ m r, predRef d m acts = some r → r.volatile = false
 
 def EntryOK (d : List (Str × Val)) (P : List Act → Prop) (h : Heap) (e : Str × HState) : Prop :=
@@ -137,18 +139,21 @@ theorem admit_sound {w : World} {lo : Nat} {k : Str} {st : HState} {r : RState} 
 
 /-! ### the command and what follows it -/
 
-theorem finish_sound {key : Str} {pvol : Bool} {w3 : World} {old : HState} {name : Str} {args : List HV} {lo : Nat}
-    {rp : RState} (sw : SoundW d P w3) (i : Inv w3) (o : Own w3 lo (cmdFoot w3.heap old args))
+theorem finish_sound {key : Str} {pvol : Bool} {ctx : List (Str × HV)} {w3 : World} {old : HState} {name : Str}
+    {args : List HV} {lo : Nat}
+    {rp : RState} (sw : SoundW d P w3) (i : Inv w3) (o : Own w3 lo (cmdFoot w3.heap old ctx args))
     (ag : Agrees w3.heap old rp) (hpv : pvol = rp.volatile) (nd : (cellsState w3.heap old).Nodup)
     (dj : ∀ a ∈ cellsState w3.heap old, ∀ v ∈ args, a ∉ cellsHV v)
+    (hctx : absVars w3.heap ctx = rp.vars)
+    (cj : rp.volatile = false → ∀ a ∈ cellsVars ctx, a ∉ cellsState w3.heap old)
     (hk : ∀ r', cmdV rp (String.ofList name) (args.map (absHV w3.heap)) = some r' →
       ∃ absolute acts m, P acts ∧ keyOf absolute acts = key ∧ refChain d m acts = some r')
-    (hsafe : String.ofList name = "getvar" → rp.volatile = false) :
-    SoundW d P (finish key pvol w3 old name args).1 ∧
-      ∀ st, (finish key pvol w3 old name args).2 = .st st →
+    (hsafe : String.ofList name = "getvar" ∨ String.ofList name = "cvapp" → rp.volatile = false) :
+    SoundW d P (finish key pvol ctx w3 old name args).1 ∧
+      ∀ st, (finish key pvol ctx w3 old name args).2 = .st st →
         ∃ r', cmdV rp (String.ofList name) (args.map (absHV w3.heap)) = some r' ∧
-          Agrees (finish key pvol w3 old name args).1.heap st r' ∧
-          (r'.volatile = true → (cellsState (finish key pvol w3 old name args).1.heap st).Nodup) := by
+          Agrees (finish key pvol ctx w3 old name args).1.heap st r' ∧
+          (r'.volatile = true → (cellsState (finish key pvol ctx w3 old name args).1.heap st).Nodup) := by
   unfold finish
   simp only
   split
@@ -156,7 +161,8 @@ theorem finish_sound {key : Str} {pvol : Bool} {w3 : World} {old : HState} {name
   · rename_i h4 data vol caching hc
     obtain ⟨hm, hcells⟩ := cmdH_frame hc (fun a ha => (o.rng a ha).2)
     obtain ⟨r', hr', sim⟩ := cmdH_sim hc (fun a ha => (o.rng a ha).2) nd dj ag.data ag.vars ag.keys
-    have s4 : Stage lo w3 (cmdFoot w3.heap old args) _ (cellsState h4 ⟨data, old.md⟩) :=
+      hctx (fun e => cj (hsafe (Or.inr e)))
+    have s4 : Stage lo w3 (cmdFoot w3.heap old ctx args) _ (cellsState h4 ⟨data, old.md⟩) :=
       (Stage.heap i o hm hcells).calls (w3.calls ++ [callText name (absHV w3.heap old.data) (args.map (absHV w3.heap))])
     have sw4 := sw.stage i o s4 (fun e he => he)
     let m' : MetaRec :=
@@ -189,7 +195,7 @@ theorem finish_sound {key : Str} {pvol : Bool} {w3 : World} {old : HState} {name
     obtain rfl : (⟨data, old.md⟩ : HState) = st := by simpa using hst
     refine ⟨r', hr', ag6, fun hvt => ?_⟩
     have hne : String.ofList name ≠ "getvar" := fun e => by
-      have h1 := hsafe e
+      have h1 := hsafe (Or.inl e)
       have h2 := cmdV_volatile hr' (by rw [e]; decide)
       rw [h1, hvt] at h2
       cases h2
